@@ -45,6 +45,7 @@ class Model(object):
         self.bx = [None] * NH
         self.hi = [None] * NH  # Holder<int> / Holder<double>: two instantiations of one class template
         self.hd = [None] * NH
+        self.ar = [None] * NH  # Python: instances of the struct Arr {n, vals, name}
         self.caps = [None] * NC  # hand id or None
         self.objs = {}  # oid -> {"value", "alive", "owner"}
         self.next_oid = 1
@@ -245,6 +246,71 @@ class Model(object):
     def op_hd_release(self, s, _b, _t):
         return self.hold_delete("d", s, release=True)
 
+    # ---- structs: plain data, nothing to own - except what the Python wrapper hangs on the members
+    def op_pt_sum(self, x, _b, _t):
+        return self.expect((x * 10 + int((x + 0.5) * 2),))
+
+    def op_pt_out(self, x, _b, _t):
+        return self.expect((x, int((x + 0.5) * 2)))
+
+    def op_pt_scale(self, x, k, _t):
+        return self.expect((x * k, int((x + 0.5) * k * 2)))
+
+    def py_only(self):
+        if self.driver != "py":
+            raise Invalid("python only")
+
+    def arr_struct(self, s):
+        self.py_only()
+        if self.ar[s] is None:
+            raise Invalid("empty slot")
+        return self.ar[s]
+
+    def arr_total(self, a):
+        return sum(a["vals"][:a["n"]]) + 1000 * (len(a["name"]) if a["name"] is not None else 77)
+
+    def op_ar_new(self, s, n, _t):
+        self.py_only()
+        self.ar[s] = {"n": n, "vals": [7 * i for i in range(n)], "name": "nm%d" % n}
+        return self.expect(())
+
+    def op_ar_set_vals(self, s, n, _t):
+        a = self.arr_struct(s)
+        a["vals"] = [3 + i for i in range(n)]
+        a["n"] = n
+        self.hit("struct_member_array_replaced")
+        return self.expect(())
+
+    def op_ar_set_name(self, s, _b, text):
+        a = self.arr_struct(s)
+        a["name"] = text
+        return self.expect(())
+
+    def op_ar_total(self, s, _b, _t):
+        return self.expect((self.arr_total(self.arr_struct(s)),))
+
+    def op_ar_get_vals(self, s, _b, _t):
+        self.arr_struct(s)
+        return self.expect(None)  # what the getter returns is C03's business
+
+    def op_ar_get_name(self, s, _b, _t):
+        self.arr_struct(s)
+        return self.expect(None)
+
+    def op_ar_drop(self, s, _b, _t):
+        self.py_only()
+        self.ar[s] = None
+        return self.expect(())
+
+    def op_ar_tmp(self, n, _b, _t):
+        # an instance that lives only for one call
+        self.py_only()
+        return self.expect((sum(7 * i for i in range(n)) + 1000 * len("nm%d" % n),))
+
+    def op_pt_tmp(self, x, _b, _t):
+        self.py_only()
+        return self.expect((x * 10 + int((x + 0.5) * 2),))
+
     # ---- plain C string API
     def op_cstr_ref(self, _a, _b, _t):
         return self.expect((len(REF_STRING), REF_STRING))
@@ -363,18 +429,19 @@ class Model(object):
         return self.expect(None)
 
     def op_leak(self, inner, a, b, text):
-        """Python: repeat a call that creates nothing six times; heap growth is judged."""
+        """Python: repeat a call six times; heap growth and reference counts are judged.  The call
+        must be idempotent for the model (doing it again changes nothing); its first application
+        counts (a member may get a new value once)."""
         if self.driver != "py":
             raise Invalid("python only")
         import copy
-        snap = copy.deepcopy(self.__dict__)
         op = [inner, a, b] + ([text] if text else [])
         self.apply(op)  # must be valid ...
-        after = self.expect(None)
-        self.__dict__.update(snap)
-        before = self.expect(None)
-        if (before["live"], before["hand"]) != (after["live"], after["hand"]):
-            raise Invalid("op changes the model state")
+        once = copy.deepcopy({k: v for k, v in self.__dict__.items() if k != "reach"})
+        self.apply(op)
+        twice = {k: v for k, v in self.__dict__.items() if k != "reach"}
+        if once != twice:
+            raise Invalid("op is not idempotent")
         e = self.expect(None)
         e["grow_check"] = True
         return e
@@ -666,6 +733,7 @@ OPS_COMMON = ["item_default", "item_val", "item_delete", "item_value", "item_set
               "make_item", "borrow_item", "default_item", "copy_item", "use_item", "sum_items", "assign",
               "make_box", "box_new", "box_value",
               "hi_new", "hd_new", "hi_get", "hd_get", "hi_put", "hd_put", "hi_delete", "hd_delete", "arr_weights",
+              "pt_sum", "pt_out", "pt_scale",
               "str_ref", "str_val", "str_owned", "str_lib", "str_in", "str_out", "str_inout",
               "char_out", "char_ret", "char_inout",
               "vec_sum", "vec_iota", "vec_inc", "vec_alloc", "vec_ret", "vec_str_count",
@@ -686,6 +754,8 @@ def gen_op(rng, model, enabled, uniq):
     name = rng.choice(enabled)
     if name.startswith("leak_"):
         inner = gen_op(rng, model, [name[5:]], uniq)
+        if inner is not None and inner[0] != name[5:]:
+            return inner  # a preparing op was drawn instead (e.g. create the instance first)
         return None if inner is None else ["leak_" + inner[0]] + inner[1:]
     hot = getattr(model, "hot_slots", None)
     if hot and rng.random() < 0.8:
@@ -751,6 +821,24 @@ def gen_op(rng, model, enabled, uniq):
         return [name, rng.choice([len(text) + 1, len(text) + 2, 20, 21, 33]), 0, text]
     if name == "arr_weights":
         return [name, lengths(rng), rng.choice([0, 1, 2, 3, 7])]
+    if name in ("pt_sum", "pt_out", "pt_tmp"):
+        return [name, rng.randrange(100)]
+    if name == "pt_scale":
+        return [name, rng.randrange(100), rng.randrange(5)]
+    if name.startswith("ar_") and name not in ("ar_new", "ar_tmp"):
+        # struct-instance ops go to a slot that holds one (or make one first)
+        full = [i for i, x in enumerate(model.ar) if x is not None]
+        if not full:
+            return ["ar_new", s, rng.choice([0, 1, 2, 5, 16, 40])]
+        s = rng.choice(full)
+    if name in ("ar_new", "ar_set_vals"):
+        return [name, s, rng.choice([0, 1, 2, 5, 16, 40])]
+    if name == "ar_set_name":
+        return [name, s, 0, rng.choice([t for t in TEXTS if t])]
+    if name in ("ar_total", "ar_get_vals", "ar_get_name", "ar_drop"):
+        return [name, s]
+    if name == "ar_tmp":
+        return [name, rng.choice([0, 1, 2, 5, 16, 40])]
     if name == "bad_arr_weights":
         return [name, rng.choice([0, 1, 3, 6, 40]), rng.randrange(12)]
     if name == "char_arr_none":
@@ -787,8 +875,11 @@ def gen_op(rng, model, enabled, uniq):
 LEAKABLE = ["item_value", "item_label", "use_item", "sum_items", "item_combine", "vec_dot", "box_value", "str_ref", "str_val", "str_lib",
             "str_in", "str_ptr_in", "str_val_in", "char_ret_len", "str_out", "str_inout", "char_out", "char_ret", "vec_sum", "vec_iota", "vec_alloc", "vec_ret",
             "arr_lib", "arr_sum", "arr_fill_out", "char_arr", "bad_vec_sum", "bad_arg", "bad_arr_sum",
-            "hi_get", "hd_get", "arr_weights", "bad_arr_weights", "char_arr_none"]
-PY_ONLY = ["box_delete", "bad_vec_sum", "bad_arg", "nomem", "bad_arr_sum", "bad_arr_weights", "char_arr_none"] + ["leak_" + n for n in LEAKABLE]
+            "hi_get", "hd_get", "arr_weights", "bad_arr_weights", "char_arr_none",
+            "pt_sum", "pt_out", "pt_scale", "pt_tmp", "ar_tmp", "ar_total", "ar_get_vals", "ar_get_name", "ar_set_vals",
+            "ar_set_name"]
+PY_ONLY = ["box_delete", "bad_vec_sum", "bad_arg", "nomem", "bad_arr_sum", "bad_arr_weights", "char_arr_none",
+           "ar_new", "ar_set_vals", "ar_set_name", "ar_total", "ar_get_vals", "ar_get_name", "ar_drop", "ar_tmp", "pt_tmp"] + ["leak_" + n for n in LEAKABLE]
 # char_inout: the Python wrapper hands the str object's own UTF-8 buffer to the library, which
 # upper-cases it in place and thereby corrupts interned strings of the interpreter (a C03 defect;
 # it would make later *values* wrong, so the op is not generated for Python)
@@ -824,12 +915,15 @@ OP_NEEDS = {
     "cstr_out": ("strOut",), "cstr_inout": ("strInout",),
     "bad_vec_sum": ("vecSum",), "bad_arr_sum": ("arrSum",), "bad_arr_weights": ("arrWeights",),
     "char_arr_none": ("charArrLen",),
+    "pt_sum": ("Pt", "ptSum"), "pt_out": ("Pt", "ptOut"), "pt_scale": ("Pt", "ptScale"), "pt_tmp": ("Pt", "ptSum"),
     # these call a fixed list of a dozen functions: only where the whole library is wrapped
     "bad_arg": ("*",), "nomem": ("*",),
 }
 for _n in ("item_default", "item_val", "item_delete", "item_value", "item_set", "item_label", "item_twin", "assign",
            "item_release", "item_combine"):
     OP_NEEDS[_n] = _ITEM
+for _n in ("ar_new", "ar_set_vals", "ar_set_name", "ar_total", "ar_get_vals", "ar_get_name", "ar_drop", "ar_tmp"):
+    OP_NEEDS[_n] = ("Arr", "arrTotal")
 for _n in ("new", "get", "put", "delete", "release"):
     OP_NEEDS["hi_" + _n] = OP_NEEDS["hd_" + _n] = ("Holder",)
 
@@ -880,6 +974,10 @@ def targeted_op(rng, m, enabled, uniq):
                 cands += [[k + "_delete", s], [k + "_release", s]]
                 if not hd["released"]:
                     cands += [[k + "_get", s], [k + "_put", s, uniq()]]
+    for s, a in enumerate(m.ar):
+        if a is not None:
+            cands += [["ar_set_vals", s, rng.choice([0, 1, 5, 16])], ["ar_total", s], ["ar_get_vals", s],
+                      ["ar_set_name", s, 0, rng.choice(["a", "hello", "two words"])], ["ar_drop", s], ["ar_get_name", s]]
     for c, hid in enumerate(m.caps):
         if hid is not None:
             cands += [["cap_delete", c], ["cap_delete", c], ["arr_new", lengths(rng), c], ["arr_pat", lengths(rng), c]]
@@ -895,7 +993,8 @@ def gen_sequence(rng, driver, length, enabled=None, have=None):
     # handle ops are always available to the targeted draws, whatever the swarm subset is
     core = [o for o in ops_for(driver, have) if o in ("item_delete", "item_release", "cap_delete", "box_delete",
                                                  "box_release", "make_item", "item_val", "arr_new", "arr_pat",
-                                                 "hi_new", "hd_new", "hi_delete", "hd_delete", "hi_release", "hd_release")]
+                                                 "hi_new", "hd_new", "hi_delete", "hd_delete", "hi_release", "hd_release",
+                                                 "ar_new", "ar_set_vals", "ar_total", "ar_drop")]
     counter = [0]
 
     def uniq():
